@@ -2,11 +2,18 @@ package bloomfilter
 
 import (
 	"encoding/binary"
+	"fmt"
 	"hash/fnv"
+	"io"
 	"math"
 	"os"
 	"sync"
 )
+
+// maxHashFuncs bounds the number of hash functions accepted from a stored
+// filter, far above what calculateOptimalHashFuncs chooses for any practical
+// false positive rate (7 for 1%, 30 for 1e-9)
+const maxHashFuncs = 64
 
 // BloomFilter is a probabilistic data structure that is used to test whether an element
 // is a member of a set. False positives are possible, but false negatives are not.
@@ -152,9 +159,25 @@ func LoadBloomFilter(filePath string) (*BloomFilter, error) {
 	expectedN := binary.LittleEndian.Uint64(header[16:24])
 	insertions := binary.LittleEndian.Uint64(header[24:32])
 
+	// The header comes from disk and is not covered by a checksum: check it
+	// against the file before trusting it. The bit array must be exactly the
+	// rest of the file (a wrong size would otherwise allocate without bound,
+	// divide by zero or index past the array), and the number of hash
+	// functions must be one this package could have chosen
+	info, err := file.Stat()
+	if err != nil {
+		return nil, err
+	}
+	if size == 0 || size > math.MaxUint64-7 || (size+7)/8 != uint64(info.Size()-int64(len(header))) {
+		return nil, fmt.Errorf("corrupt bloom filter: size %d does not match the %d stored bytes", size, info.Size())
+	}
+	if hashFuncs == 0 || hashFuncs > maxHashFuncs {
+		return nil, fmt.Errorf("corrupt bloom filter: %d hash functions", hashFuncs)
+	}
+
 	// Read bit array
 	bits := make([]byte, (size+7)/8)
-	if _, err := file.Read(bits); err != nil {
+	if _, err := io.ReadFull(file, bits); err != nil {
 		return nil, err
 	}
 
